@@ -73,14 +73,14 @@ const METAS: &[PropMeta] = &[
     PropMeta {
         id: "C03",
         level: "fault_enumeration",
-        rule: "a scheduled history (tiny chunks, flushes/purges/rotations, worker stepped by a seeded schedule, sometimes a failing fdatasync) is run once under the syscall shim; for EVERY prefix of the recorded trace ending in a file-system call or an Ack(Ok) the synthesiser builds the post-crash images: process crash (all completed calls kept), inside the next write (cut at every record boundary + 3 interior bytes), power loss (per file every record boundary / 2 interior cuts / zero-fill from every boundary in the unsynced range; all-min, all-max, each file varied with the others at min and at max, random combinations). Each distinct image is opened by the real RaftLog::open; when it opens, (state, all entries) must equal the reference log after some prefix p of the accepted single-record writes with acked <= p <= issued. A case = one (crash point, image); distinct = distinct image contents that opened. 40% of the histories carry a fault plan (one or two consecutive failing fdatasyncs, a short write, a failing chunk-file creation); a third of the no-rotation histories contain a 70 kB entry (zero-filled tails > 64 KiB). Every workload runs with a logger installed at Trace level (log arguments are evaluated). One full-queue round per shard: 1025 queued flushes are drained and acknowledged, then the process crashes (files as they are) and recovery must show everything.",
+        rule: "a scheduled history (tiny chunks, flushes/purges/rotations, worker stepped by a seeded schedule, sometimes a failing fdatasync) is run once under the syscall shim; for EVERY prefix of the recorded trace ending in a file-system call or an Ack(Ok) the synthesiser builds the post-crash images: process crash (all completed calls kept), inside the next write (cut at every record boundary + 3 interior bytes), power loss (per file every record boundary / 2 interior cuts / zero-fill from every boundary in the unsynced range; all-min, all-max, each file varied with the others at min and at max, random combinations). Each distinct image is opened by the real RaftLog::open; when it opens, (state, all entries) must equal the reference log after some prefix p of the accepted single-record writes with acked <= p <= issued. A case = one (crash point, image); distinct = distinct image contents that opened. 40% of the histories carry a fault plan (one or two consecutive failing fdatasyncs, a short write, a failing chunk-file creation); a third of the no-rotation histories contain a 70 kB entry (zero-filled tails > 64 KiB). Every workload runs with a logger installed at Trace level (log arguments are evaluated). One full-queue round per shard: 1025 queued flushes are drained and acknowledged, then the process crashes (files as they are) and recovery must show everything. Real crashes: a child process runs a generated history on the real store (free-running worker, no shim) and reports over a pipe what it issues and which flushes were acknowledged; it is killed with SIGKILL at a seeded point of that protocol and the directory it left is opened: same prefix rule (C03) and must-open rule (C05, known finding D6 excepted on its exact signature), plus one write + flush on the recovered store.",
         assumptions: &["crash model of the statement: completed calls kept, unsynced bytes lost from any byte onward or zero-filled from a record boundary; directory entry creation/removal durable on return", "images on which open fails are C05's subject"],
         min_distinct: 50,
     },
     PropMeta {
         id: "C05",
         level: "fault_enumeration",
-        rule: "same trace-prefix crash images as C03 (process crash, inside-write, power-loss families); on EVERY distinct image the real RaftLog::open must return Ok (no Err, no panic); on images that needed repair and a sample of the others the recovered store must accept 8 further legal writes, flush, be acknowledged, restart and agree with the reference log continued from the recovered prefix; a sample of recoveries that repaired something is itself traced and every crash image of that recovery must open too. A case = one (crash point, image); distinct = distinct image contents. Every workload runs with a logger installed at Trace level. One full-queue round per shard: after 1025 queued flushes were drained and acknowledged the process crashes and the directory must open.",
+        rule: "same trace-prefix crash images as C03 (process crash, inside-write, power-loss families); on EVERY distinct image the real RaftLog::open must return Ok (no Err, no panic); on images that needed repair and a sample of the others the recovered store must accept 8 further legal writes, flush, be acknowledged, restart and agree with the reference log continued from the recovered prefix; a sample of recoveries that repaired something is itself traced and every crash image of that recovery must open too. A case = one (crash point, image); distinct = distinct image contents. Every workload runs with a logger installed at Trace level. One full-queue round per shard: after 1025 queued flushes were drained and acknowledged the process crashes and the directory must open. Real crashes: a child process runs a generated history on the real store (free-running worker, no shim) and reports over a pipe what it issues and which flushes were acknowledged; it is killed with SIGKILL at a seeded point of that protocol and the directory it left is opened: same prefix rule (C03) and must-open rule (C05, known finding D6 excepted on its exact signature), plus one write + flush on the recovered store.",
         assumptions: &["same crash model as C03", "known finding D6 is matched by its exact signature (gap caused by a chunk tail the worker had not yet written when the next chunk file already existed)"],
         min_distinct: 50,
     },
@@ -172,6 +172,7 @@ fn main() {
         "replay" => cmd_replay(&args),
         "c13-child" => props::c13::child_main(&args),
         "c13-hold" => props::c13x::hold_main(&args),
+        "kill9-child" => props::kill9::child_main(&args),
         "miri" => props::miri::main(&args),
         "c12-big" => props::codec::big_child(&args),
         _ => {
@@ -397,6 +398,7 @@ fn cmd_replay(args: &[String]) -> i32 {
         }
         "c16w" => props::c16walk::replay(rp),
         "c15big" => props::bigchunk::replay(rp),
+        "kill9" => props::kill9::replay(rp),
         "c07big" => props::bigread::replay(rp),
         "c15w" => props::c16walk::replay15(rp),
         "maxbatch" => props::maxbatch::replay(rp),
